@@ -25,6 +25,8 @@ func c13bGen(rt *rapid.T) e4Case {
 		for i := 0; i < n; i++ {
 			c.Faults = append(c.Faults, e4Fault{Kind: "goSilent", Conn: i + 1, Pkt: rapid.IntRange(1, 6).Draw(rt, "pkt")})
 		}
+		// the application probes the connection itself (Ping without deadline) the moment the peer goes silent
+		c.Cfg.AppPingOnSilence = rapid.IntRange(0, 2).Draw(rt, "appPing") == 0
 	} else {
 		// negative class: every ping is answered; the timeout is far away so that load cannot fake a silence
 		c.Cfg.PingTimeoutMs = 2000
